@@ -139,7 +139,7 @@ Definition lex_one (s : str) : lexres :=
     match word with
     | Some (w, rest) =>
         if starts_with [66; 89; 84; 69] w then LTok (TByte (byte_word_idx w)) rest
-        else if word_numeric_ci w then LBad          (* parse_numeric_string raises ValueError *)
+        (* (is_string_numeric is case sensitive since D43: a word that reaches this alternative is never a number) *)
         else if valid_label w then LTok (TLabel w) rest
         else LBad                                     (* "invalid token" *)
     | None =>
